@@ -3,7 +3,7 @@
    label alphabet is restricted to what LockPool exposes (no guard operations that insert values), so
    every entry is valueless: present <=> held or in the middle of being acquired/released. *)
 From Coq Require Import List Arith ZArith.
-From LK Require Import AList Model Inv StepInv PropLemmas.
+From LK Require Import AList Model Inv StepInv PropLemmas Seq DropInv Stream SeqRefine SeqLimit Conc.
 Import ListNotations.
 
 Definition pool := mkCfg false.
@@ -53,6 +53,20 @@ Proof.
   specialize (Hv k). unfold vof, vof_e in Hv. rewrite He' in Hv. unfold val_of in Hv.
   destruct (e_val e') as [[]|]; congruence.
 Qed.
+
+(* ... and returns None ONLY when the key is held or awaited by a pending acquisition (the converse), ... *)
+Theorem C14_try_fails_only_if_held_or_awaited : forall s a sh k o s',
+  reachable pool s -> aget a (s_ops s) = Some (PKeyTry sh k) -> step pool s (LResume a o) = ROk s' ONothing ->
+  (exists g, aget g (s_guards s) = Some k) \/ (exists a', waits_on s a' k).
+Proof. intros s a sh k o s' H. exact (try_fails_only_if_locked_or_awaited pool s a sh k o s' (reachable_inv pool s H)). Qed.
+
+(* ... and under every interleaving each step acts on the set of held keys as a short sequence of atomic
+   acquisitions (of keys nobody holds) and releases of the plain locked set of SeqRefine.v, with the guards it
+   announces (Conc.v); so every concurrent history of a pool is linearisable with respect to a plain set of locks. *)
+Theorem C14_every_interleaving_refines_the_locked_set : forall s sp l o s',
+  reachable pool s -> R s sp -> step pool s l = ROk s' o -> is_consume l = false ->
+  exists calls os sp', explains l o calls os /\ spec_acts sp calls = Some (sp', os) /\ R s' sp'.
+Proof. intros s sp l o s' H. exact (conc_step_refines pool s sp l o s' (reachable_inv pool s H)). Qed.
 
 Example C14_witness :
   run pool [LStart 0 (CLock ShBlocking 1 None); LResume 0 []; LStart 1 (CLock ShTry 1 None); LResume 1 [1]; LResume 1 [1];
